@@ -92,6 +92,10 @@ func scenarioC19(x *runner.X) {
 	// dense: one epoch in which some account is mentioned by more transactions than any fixed
 	// page size of the address-index reader, all inside one permitted slot range
 	dense := t.Bool(0.08)
+	// veryDense (a quarter of the dense worlds): the account is mentioned by more transactions
+	// than one batch of the address index's linked log holds (1000), so its history in the epoch
+	// spans several batches and a batch boundary falls inside a slot
+	veryDense := dense && t.Bool(0.25)
 	if dense {
 		n = 1
 	}
@@ -112,6 +116,9 @@ func scenarioC19(x *runner.X) {
 		if dense {
 			p.NumBlocks, p.MaxEntries, p.MaxTxPerEntry, p.NumAccounts = t.Range(30, 45), 4, 7, 6
 			p.SkipProb, p.MaxSkip, p.VoteFrac, p.MaxFrameBytes = 0.2, 2, 0.6, 1000
+		}
+		if veryDense {
+			p.NumBlocks, p.MaxEntries, p.MaxTxPerEntry, p.NumAccounts = t.Range(70, 90), 7, 12, 3
 		}
 		w := world.Generate(tapeRng{t.SubRand()}, p)
 		dir := filepath.Join(x.TempDir(), fmt.Sprintf("epoch-%d", e))
@@ -264,6 +271,30 @@ func scenarioC19(x *runner.X) {
 		desc += fmt.Sprintf("[dense %d..%d inc=%s mentions=%d] ", q.start, q.end, best, len(ws[0].w.ByAddress[best]))
 		if len(ws[0].w.ByAddress[best]) > 100 {
 			x.Probe("account_with_over_100_matches")
+		}
+		if m := ws[0].w.ByAddress[best]; len(m) > 1000 {
+			x.Probe("account_with_over_1000_matches")
+			// streams that start in the neighbourhood of every 1000th mention (counted from the
+			// oldest, the order in which the indexer pushes them), and at a few other slots
+			var starts []uint64
+			for k := 1000; k < len(m); k += 1000 {
+				// ByAddress is newest first: mention j from the oldest is m[len(m)-1-j]
+				for _, j := range []int{k - 1, k} {
+					starts = append(starts, m[len(m)-1-j].Block.Slot)
+				}
+			}
+			for k := 0; k < 3; k++ {
+				starts = append(starts, allBlocks[t.Intn(len(allBlocks))].Slot)
+			}
+			last := allBlocks[len(allBlocks)-1].Slot
+			for _, st := range starts {
+				q := txReq{vote: true, failed: true, include: []solana.PublicKey{best}, start: st, end: st + uint64(t.Range(0, 30))}
+				if q.end > last {
+					q.end = last
+				}
+				reqs = append(reqs, q)
+				desc += fmt.Sprintf("[very dense %d..%d] ", q.start, q.end)
+			}
 		}
 	}
 	x.Digest(desc)
